@@ -213,10 +213,16 @@ package tbtc
 //@   ensures forall c ref :: c in old(ghost.ctxDone) ==> c in ghost.ctxDone
 //@   ensures result == nil ==> ghost.now >= arg1 || arg0 in ghost.ctxDone
 
+//@ func newSigningRetryLoop
+//@   property C11 C46
+//@   modifies alloc
+//@   ensures result != nil && !old(allocated(result)) && result.attemptCounter == 0 && result.attemptStartBlock == initialStartBlock
+
 //@ func signingRetryLoop.start
 //@   property C11
 //@   arith math
-//@   requires srl.attemptCounter == 0 && ghost.loopStart == srl.attemptStartBlock
+//@   binds ghost.loopStart = srl.attemptStartBlock
+//@   requires srl.attemptCounter == 0
 //@   modifies srl.attemptCounter, srl.attemptStartBlock, ghost.lastSeenBlock, ghost.now, ghost.ctxDone, alloc
 //@   loop 1 invariant srl.attemptCounter >= 0 && srl.attemptStartBlock == ghost.loopStart + ite(srl.attemptCounter >= 1, srl.attemptCounter - 1, 0) * signingAttemptMaximumBlocks()
 
@@ -232,6 +238,216 @@ package tbtc
 //@ func dkgRetryLoop.start
 //@   property C11
 //@   arith math
-//@   requires drl.attemptCounter == 0 && ghost.loopStart == drl.attemptStartBlock
+//@   binds ghost.loopStart = drl.attemptStartBlock
+//@   requires drl.attemptCounter == 0
 //@   modifies drl.attemptCounter, drl.attemptStartBlock, ghost.now, ghost.ctxDone, alloc
 //@   loop 1 invariant drl.attemptCounter >= 0 && drl.attemptStartBlock == ghost.loopStart + ite(drl.attemptCounter >= 1, drl.attemptCounter - 1, 0) * dkgAttemptMaximumBlocks()
+
+// ---------------------------------------------------------------------------
+// C46: wallet action deadlines nest inside the proposal validity window
+
+//@ const-invariant signing-loop-fits-single-message: signingAttemptsLimit * signingAttemptMaximumBlocks() <= 4294967295 && signingAttemptsLimit >= 1
+//@   property C46
+
+//@ const-invariant depositSweep-window: depositSweepProposalValidityBlocks >= depositSweepSigningTimeoutSafetyMarginBlocks && depositSweepProposalValidityBlocks - depositSweepSigningTimeoutSafetyMarginBlocks >= signingAttemptsLimit * signingAttemptMaximumBlocks() && depositSweepBroadcastTimeout <= depositSweepSigningTimeoutSafetyMarginBlocks * 12 * time.Second && depositSweepBroadcastTimeout > 0
+//@   property C46
+//@ type depositSweepAction
+//@   invariant self.signingTimeoutSafetyMarginBlocks == depositSweepSigningTimeoutSafetyMarginBlocks && self.broadcastTimeout == depositSweepBroadcastTimeout && self.proposalExpiryBlock == self.proposalProcessingStartBlock + depositSweepProposalValidityBlocks && self.proposalProcessingStartBlock <= 4611686018427387904
+//@ func DepositSweepProposal.ValidityBlocks
+//@   property C46
+//@   ensures result == depositSweepProposalValidityBlocks
+//@ func newDepositSweepAction
+//@   property C46
+//@   requires [expiry-is-start-plus-validity] proposalExpiryBlock == proposalProcessingStartBlock + depositSweepProposalValidityBlocks && proposalProcessingStartBlock <= 4611686018427387904
+//@   modifies alloc
+//@   ensures result != nil && !old(allocated(result))
+//@ func depositSweepAction.execute
+//@   property C46
+//@   assert call:walletTransactionExecutor.signTransaction : [signing-starts-no-earlier-than-action-start] arg2 >= dsa.proposalProcessingStartBlock
+//@   assert call:walletTransactionExecutor.signTransaction : [signing-ends-margin-before-expiry] arg3 + depositSweepSigningTimeoutSafetyMarginBlocks == dsa.proposalExpiryBlock
+//@   assert call:walletTransactionExecutor.signTransaction : [room-for-one-retry-loop] arg3 >= arg2 + signingAttemptsLimit * signingAttemptMaximumBlocks()
+//@   assert call:walletTransactionExecutor.broadcastTransaction : [broadcast-bounded-by-margin] arg2 > 0 && arg2 <= depositSweepSigningTimeoutSafetyMarginBlocks * 12 * time.Second
+//@ func node.handleDepositSweepProposal
+//@   property C46
+//@   requires [expiry-is-start-plus-validity] expiryBlock == startBlock + depositSweepProposalValidityBlocks && startBlock <= 4611686018427387904
+//@   modifies alloc
+
+//@ const-invariant redemption-window: redemptionProposalValidityBlocks >= redemptionSigningTimeoutSafetyMarginBlocks && redemptionProposalValidityBlocks - redemptionSigningTimeoutSafetyMarginBlocks >= signingAttemptsLimit * signingAttemptMaximumBlocks() && redemptionBroadcastTimeout <= redemptionSigningTimeoutSafetyMarginBlocks * 12 * time.Second && redemptionBroadcastTimeout > 0
+//@   property C46
+//@ type redemptionAction
+//@   invariant self.signingTimeoutSafetyMarginBlocks == redemptionSigningTimeoutSafetyMarginBlocks && self.broadcastTimeout == redemptionBroadcastTimeout && self.proposalExpiryBlock == self.proposalProcessingStartBlock + redemptionProposalValidityBlocks && self.proposalProcessingStartBlock <= 4611686018427387904
+//@ func RedemptionProposal.ValidityBlocks
+//@   property C46
+//@   ensures result == redemptionProposalValidityBlocks
+//@ func newRedemptionAction
+//@   property C46
+//@   requires [expiry-is-start-plus-validity] proposalExpiryBlock == proposalProcessingStartBlock + redemptionProposalValidityBlocks && proposalProcessingStartBlock <= 4611686018427387904
+//@   modifies alloc
+//@   ensures result != nil && !old(allocated(result))
+//@ func redemptionAction.execute
+//@   property C46
+//@   assert call:walletTransactionExecutor.signTransaction : [signing-starts-no-earlier-than-action-start] arg2 >= ra.proposalProcessingStartBlock
+//@   assert call:walletTransactionExecutor.signTransaction : [signing-ends-margin-before-expiry] arg3 + redemptionSigningTimeoutSafetyMarginBlocks == ra.proposalExpiryBlock
+//@   assert call:walletTransactionExecutor.signTransaction : [room-for-one-retry-loop] arg3 >= arg2 + signingAttemptsLimit * signingAttemptMaximumBlocks()
+//@   assert call:walletTransactionExecutor.broadcastTransaction : [broadcast-bounded-by-margin] arg2 > 0 && arg2 <= redemptionSigningTimeoutSafetyMarginBlocks * 12 * time.Second
+//@ func node.handleRedemptionProposal
+//@   property C46
+//@   requires [expiry-is-start-plus-validity] expiryBlock == startBlock + redemptionProposalValidityBlocks && startBlock <= 4611686018427387904
+//@   modifies alloc
+
+//@ const-invariant movingFunds-window: movingFundsProposalValidityBlocks >= movingFundsSigningTimeoutSafetyMarginBlocks && movingFundsProposalValidityBlocks - movingFundsSigningTimeoutSafetyMarginBlocks >= signingAttemptsLimit * signingAttemptMaximumBlocks() && movingFundsBroadcastTimeout <= movingFundsSigningTimeoutSafetyMarginBlocks * 12 * time.Second && movingFundsBroadcastTimeout > 0
+//@   property C46
+//@ type movingFundsAction
+//@   invariant self.signingTimeoutSafetyMarginBlocks == movingFundsSigningTimeoutSafetyMarginBlocks && self.broadcastTimeout == movingFundsBroadcastTimeout && self.proposalExpiryBlock == self.proposalProcessingStartBlock + movingFundsProposalValidityBlocks && self.proposalProcessingStartBlock <= 4611686018427387904
+//@ func MovingFundsProposal.ValidityBlocks
+//@   property C46
+//@   ensures result == movingFundsProposalValidityBlocks
+//@ func newMovingFundsAction
+//@   property C46
+//@   requires [expiry-is-start-plus-validity] proposalExpiryBlock == proposalProcessingStartBlock + movingFundsProposalValidityBlocks && proposalProcessingStartBlock <= 4611686018427387904
+//@   modifies alloc
+//@   ensures result != nil && !old(allocated(result))
+//@ func movingFundsAction.execute
+//@   property C46
+//@   assert call:walletTransactionExecutor.signTransaction : [signing-starts-no-earlier-than-action-start] arg2 >= mfa.proposalProcessingStartBlock
+//@   assert call:walletTransactionExecutor.signTransaction : [signing-ends-margin-before-expiry] arg3 + movingFundsSigningTimeoutSafetyMarginBlocks == mfa.proposalExpiryBlock
+//@   assert call:walletTransactionExecutor.signTransaction : [room-for-one-retry-loop] arg3 >= arg2 + signingAttemptsLimit * signingAttemptMaximumBlocks()
+//@   assert call:walletTransactionExecutor.broadcastTransaction : [broadcast-bounded-by-margin] arg2 > 0 && arg2 <= movingFundsSigningTimeoutSafetyMarginBlocks * 12 * time.Second
+//@ func node.handleMovingFundsProposal
+//@   property C46
+//@   requires [expiry-is-start-plus-validity] expiryBlock == startBlock + movingFundsProposalValidityBlocks && startBlock <= 4611686018427387904
+//@   modifies alloc
+
+//@ const-invariant movedFundsSweep-window: movedFundsSweepProposalValidityBlocks >= movedFundsSweepSigningTimeoutSafetyMarginBlocks && movedFundsSweepProposalValidityBlocks - movedFundsSweepSigningTimeoutSafetyMarginBlocks >= signingAttemptsLimit * signingAttemptMaximumBlocks() && movedFundsSweepBroadcastTimeout <= movedFundsSweepSigningTimeoutSafetyMarginBlocks * 12 * time.Second && movedFundsSweepBroadcastTimeout > 0
+//@   property C46
+//@ type movedFundsSweepAction
+//@   invariant self.signingTimeoutSafetyMarginBlocks == movedFundsSweepSigningTimeoutSafetyMarginBlocks && self.broadcastTimeout == movedFundsSweepBroadcastTimeout && self.proposalExpiryBlock == self.proposalProcessingStartBlock + movedFundsSweepProposalValidityBlocks && self.proposalProcessingStartBlock <= 4611686018427387904
+//@ func MovedFundsSweepProposal.ValidityBlocks
+//@   property C46
+//@   ensures result == movedFundsSweepProposalValidityBlocks
+//@ func newMovedFundsSweepAction
+//@   property C46
+//@   requires [expiry-is-start-plus-validity] proposalExpiryBlock == proposalProcessingStartBlock + movedFundsSweepProposalValidityBlocks && proposalProcessingStartBlock <= 4611686018427387904
+//@   modifies alloc
+//@   ensures result != nil && !old(allocated(result))
+//@ func movedFundsSweepAction.execute
+//@   property C46
+//@   assert call:walletTransactionExecutor.signTransaction : [signing-starts-no-earlier-than-action-start] arg2 >= mfsa.proposalProcessingStartBlock
+//@   assert call:walletTransactionExecutor.signTransaction : [signing-ends-margin-before-expiry] arg3 + movedFundsSweepSigningTimeoutSafetyMarginBlocks == mfsa.proposalExpiryBlock
+//@   assert call:walletTransactionExecutor.signTransaction : [room-for-one-retry-loop] arg3 >= arg2 + signingAttemptsLimit * signingAttemptMaximumBlocks()
+//@   assert call:walletTransactionExecutor.broadcastTransaction : [broadcast-bounded-by-margin] arg2 > 0 && arg2 <= movedFundsSweepSigningTimeoutSafetyMarginBlocks * 12 * time.Second
+//@ func node.handleMovedFundsSweepProposal
+//@   property C46
+//@   requires [expiry-is-start-plus-validity] expiryBlock == startBlock + movedFundsSweepProposalValidityBlocks && startBlock <= 4611686018427387904
+//@   modifies alloc
+
+//@ const-invariant heartbeat-window: heartbeatTotalProposalValidityBlocks >= heartbeatInactivityClaimValidityBlocks && heartbeatTotalProposalValidityBlocks - heartbeatInactivityClaimValidityBlocks >= signingAttemptsLimit * signingAttemptMaximumBlocks() && heartbeatInactivityClaimValidityBlocks > heartbeatTimeoutSafetyMarginBlocks && heartbeatTimeoutSafetyMarginBlocks >= 1
+//@   property C46
+//@ type heartbeatAction
+//@   invariant self.expiryBlock == self.startBlock + heartbeatTotalProposalValidityBlocks && self.startBlock <= 4611686018427387904
+//@ func HeartbeatProposal.ValidityBlocks
+//@   property C46
+//@   ensures result == heartbeatTotalProposalValidityBlocks
+//@ func newHeartbeatAction
+//@   property C46
+//@   requires [expiry-is-start-plus-validity] expiryBlock == startBlock + heartbeatTotalProposalValidityBlocks && startBlock <= 4611686018427387904
+//@   modifies alloc
+//@   ensures result != nil && !old(allocated(result))
+//@ func node.handleHeartbeatProposal
+//@   property C46
+//@   requires [expiry-is-start-plus-validity] expiryBlock == startBlock + heartbeatTotalProposalValidityBlocks && startBlock <= 4611686018427387904
+//@   modifies alloc
+
+// dispatch table of the proposal interface (each concrete method is verified above)
+//@ assume func CoordinationProposal.ValidityBlocks
+//@   ensures dyntype(recv) == typeid(*HeartbeatProposal) ==> result == heartbeatTotalProposalValidityBlocks
+//@   ensures dyntype(recv) == typeid(*DepositSweepProposal) ==> result == depositSweepProposalValidityBlocks
+//@   ensures dyntype(recv) == typeid(*RedemptionProposal) ==> result == redemptionProposalValidityBlocks
+//@   ensures dyntype(recv) == typeid(*MovingFundsProposal) ==> result == movingFundsProposalValidityBlocks
+//@   ensures dyntype(recv) == typeid(*MovedFundsSweepProposal) ==> result == movedFundsSweepProposalValidityBlocks
+
+//@ func coordinationWindow.endBlock
+//@   property C46
+//@   requires cw.coordinationBlock <= 2305843009213693952
+//@   ensures result == cw.coordinationBlock + coordinationDurationBlocks
+
+//@ func processCoordinationResult
+//@   property C46
+//@   requires result != nil && result.window != nil && result.window.coordinationBlock <= 2305843009213693952
+//@   modifies alloc
+
+//@ func walletTransactionExecutor.signTransaction
+//@   property C46
+//@   opt noframe 1
+//@   loop 1 invariant len(containers) == len(signatures)
+//@   assert call:withCancelOnBlock : [signing-context-ends-at-timeout] arg1 == signingTimeoutBlock
+//@   assert call:walletSigningExecutor.signBatch : [batch-starts-at-signing-start] arg2 == signingStartBlock
+
+//@ func signingExecutor.sign
+//@   property C46
+//@   opt noframe 1
+//@   requires startBlock <= 4611686018427387904 && se.signingAttemptsLimit <= 1000
+//@   lit 1
+//@     requires [retry-loop-window] loopTimeoutBlock == startBlock + se.signingAttemptsLimit * signingAttemptMaximumBlocks()
+//@     opt noframe 1
+//@     assert call:withCancelOnBlock@1 : [loop-context-ends-at-loop-timeout] arg1 == loopTimeoutBlock
+//@     assert call:newSigningRetryLoop : [loop-starts-at-signing-start] arg2 == startBlock
+
+// ---------------------------------------------------------------------------
+// C36 (heartbeat escalation) and the heartbeat part of C46
+
+//@ ghost hbUnstaking bool
+//@ ghost hbProposalValid bool
+//@ ghost hbSigned bool
+//@ ghost hbActive int
+//@ ghost hbInactive []group.MemberIndex
+
+// Observation points of one heartbeat execution (ghost flags record what the
+// action observed; the claim's precondition is the oracle of C36).
+//@ assume func heartbeatAction.isOperatorUnstaking
+//@   modifies ghost.hbUnstaking
+//@   ensures err == nil ==> ghost.hbUnstaking == result0
+//@ assume func WalletProposalValidatorChain.ValidateHeartbeatProposal
+//@   modifies ghost.hbProposalValid
+//@   ensures ghost.hbProposalValid == (result == nil)
+//@ assume func heartbeatSigningExecutor.sign
+//@   modifies ghost.hbSigned, ghost.hbActive, ghost.hbInactive, alloc
+//@   ensures ghost.hbSigned == (err == nil)
+//@   ensures err == nil ==> result1 != nil && ghost.hbActive == len(result1.activeMembers) && ghost.hbInactive == result1.inactiveMembers
+//@ assume func heartbeatInactivityClaimExecutor.claimInactivity
+//@   requires [not-unstaking] !ghost.hbUnstaking
+//@   requires [proposal-valid] ghost.hbProposalValid
+//@   requires [signing-succeeded-with-low-activity] ghost.hbSigned && ghost.hbActive < heartbeatSigningMinimumActiveMembers
+//@   requires [marked-as-heartbeat-failure] heartbeatFailed
+//@   requires [names-exactly-the-unready-members] inactiveMembersIndexes == ghost.hbInactive && len(inactiveMembersIndexes) > 0
+
+//@ type heartbeatFailureCounter
+//@   guarded_by mutex counters
+
+// Sequential specifications of the counter (the whole body is one critical section).
+//@ func heartbeatFailureCounter.increment
+//@   property C36
+//@   opt lock-no-havoc 1
+//@   modifies hfc.counters
+//@   ensures hfc.counters[walletPublicKey] == wrap_u64(ite(walletPublicKey in old(hfc.counters), old(hfc.counters)[walletPublicKey], 0) + 1)
+//@   ensures forall k string :: k != walletPublicKey ==> ((k in hfc.counters) <==> (k in old(hfc.counters))) && hfc.counters[k] == old(hfc.counters)[k]
+//@ func heartbeatFailureCounter.reset
+//@   property C36
+//@   opt lock-no-havoc 1
+//@   modifies hfc.counters
+//@   ensures (walletPublicKey in hfc.counters) && hfc.counters[walletPublicKey] == 0
+//@   ensures forall k string :: k != walletPublicKey ==> ((k in hfc.counters) <==> (k in old(hfc.counters))) && hfc.counters[k] == old(hfc.counters)[k]
+//@ func heartbeatFailureCounter.get
+//@   property C36
+//@   opt lock-no-havoc 1
+//@   ensures result == ite(walletPublicKey in hfc.counters, hfc.counters[walletPublicKey], 0)
+
+//@ func heartbeatAction.execute
+//@   property C36 C46
+//@   opt noframe 1
+//@   requires ha.failureCounter != nil
+//@   assert call:withCancelOnBlock@1 : [signing-ends-claim-validity-before-expiry] arg1 + heartbeatInactivityClaimValidityBlocks == ha.expiryBlock
+//@   assert call:heartbeatSigningExecutor.sign : [signing-starts-at-action-start] arg2 == ha.startBlock
+//@   assert call:withCancelOnBlock@2 : [claim-ends-safety-margin-before-expiry] arg1 + heartbeatTimeoutSafetyMarginBlocks == ha.expiryBlock
+//@   assert call:heartbeatInactivityClaimExecutor.claimInactivity : [run-of-at-least-three] ite(walletKey in ha.failureCounter.counters, ha.failureCounter.counters[walletKey], 0) >= heartbeatConsecutiveFailureThreshold && heartbeatConsecutiveFailureThreshold >= 3
+//@   ensures [counter-transition] forall k string :: (ite(k in ha.failureCounter.counters, ha.failureCounter.counters[k], 0) == ite(k in old(ha.failureCounter.counters), old(ha.failureCounter.counters)[k], 0)) || (ghost.hbSigned && !ghost.hbUnstaking && ghost.hbProposalValid && ghost.hbActive >= heartbeatSigningMinimumActiveMembers && ha.failureCounter.counters[k] == 0) || (ghost.hbSigned && !ghost.hbUnstaking && ghost.hbProposalValid && ghost.hbActive < heartbeatSigningMinimumActiveMembers && ha.failureCounter.counters[k] == wrap_u64(ite(k in old(ha.failureCounter.counters), old(ha.failureCounter.counters)[k], 0) + 1))
